@@ -44,11 +44,7 @@ def _corrupt(evs):
 
 
 def plans(tier):
-    if tier == "quick":
-        return [("d1-1d", 1, 3), ("d1-2d", 1, 8), ("d2-push1", 1, 1), ("d2-push2", 1, 3), ("d2-push3", 1, 3), ("d3-sr1", 1, 8),
-                ("d2-lean1", 1, 8), ("d2-lean2", 1, 32), ("d2-lean3", 1, 40)]
-    return [("d1-1d-wide", 6, 1), ("d1-2d", 6, 1), ("d2-lean1", 3, 1), ("d2-lean2", 2, 1), ("d2-lean3", 2, 1), ("d3-sr1", 2, 1),
-            ("d3-chain1", 1, 4)]
+    return progcheck.standard_plans(tier)
 
 
 def accept(v):
